@@ -1408,12 +1408,37 @@ def _src(R):
     return "--- source ---\n" + R.source + "\n--- context --- " + json.dumps(R.context, sort_keys=True)
 
 
+class _Hang(Exception):
+    pass
+
+
+CPU_LIMIT = 5.0
+
+
+def _guarded(fn, *args, **kwargs):
+    """Call fn under a limit on the CPU time of this process (not wall clock): the pseudo-function pattern of the
+    library can backtrack exponentially, and a hang must become an outcome instead of stalling the shard."""
+    import signal
+
+    def handler(sig, frame):
+        raise _Hang()
+    old = signal.signal(signal.SIGVTALRM, handler)
+    signal.setitimer(signal.ITIMER_VIRTUAL, CPU_LIMIT)
+    try:
+        return fn(*args, **kwargs)
+    finally:
+        signal.setitimer(signal.ITIMER_VIRTUAL, 0)
+        signal.signal(signal.SIGVTALRM, old)
+
+
 def run_one(col, M, E, recipe, seed, tag, inject=None):
     """Render, build the model, compare with M.  Returns (renderer, obs, got) or raises Violation."""
     ir = _ir()
     R = Renderer(M, recipe, inject=inject).render()
     try:
-        m = ir.Simultaneous.from_string(R.source, context=dict(R.context) if R.context or recipe["noise"][0] % 2 else None)
+        m = _guarded(ir.Simultaneous.from_string, R.source, context=dict(R.context) if R.context or recipe["noise"][0] % 2 else None)
+    except _Hang:
+        raise Violation("from_string:hang", f"{tag}: from_string used more than {CPU_LIMIT:g} s of CPU time (a normal parse takes ~0.01 s)\n{_src(R)}")
     except Exception as exc:  # noqa: BLE001
         raise Violation(f"from_string:raises:{type(exc).__name__}", f"{tag}: {type(exc).__name__}: {str(exc)[:300]}\n{_src(R)}")
     obs = api("observe", observe, m)
@@ -1613,8 +1638,3 @@ if __name__ == "__main__":
         print(_src(R))
         print(sorted(R.labels))
     print(json.dumps(expand_model(case["model"])["eqs"], indent=0)[:3000])
-
-import os as _os
-if _os.environ.get("C04_DEBUG"):
-    import faulthandler as _fh, signal as _sg
-    _fh.register(_sg.SIGUSR1, file=open("/tmp/c04/fault_%d.txt" % _os.getpid(), "w"), all_threads=True)
